@@ -152,3 +152,97 @@ def seal_nonce(epk, rpk):
 def box_seal(rpk, esk, msg):
     epk = x25519_base(esk)
     return epk + box(rpk, esk, seal_nonce(epk, rpk), msg)
+
+# ---------------------------------------------------------------- Ed25519 (RFC 8032 reference, for generating valid signatures)
+ED_D = -121665 * pow(121666, P25519 - 2, P25519) % P25519
+ED_L = 2 ** 252 + 27742317777372353535851937790883648493
+ED_I = pow(2, (P25519 - 1) // 4, P25519)
+
+
+def _ed_add(P, Q):
+    A = (P[1] - P[0]) * (Q[1] - Q[0]) % P25519
+    B = (P[1] + P[0]) * (Q[1] + Q[0]) % P25519
+    C = 2 * P[3] * Q[3] * ED_D % P25519
+    D = 2 * P[2] * Q[2] % P25519
+    E, F, G, H = B - A, D - C, D + C, B + A
+    return (E * F % P25519, G * H % P25519, F * G % P25519, E * H % P25519)
+
+
+def _ed_mul(s, P):
+    Q = (0, 1, 1, 0)
+    while s > 0:
+        if s & 1:
+            Q = _ed_add(Q, P)
+        P = _ed_add(P, P)
+        s >>= 1
+    return Q
+
+
+def _ed_recover_x(y, sign):
+    if y >= P25519:
+        return None
+    x2 = (y * y - 1) * pow(ED_D * y * y + 1, P25519 - 2, P25519) % P25519
+    if x2 == 0:
+        return None if sign else 0
+    x = pow(x2, (P25519 + 3) // 8, P25519)
+    if (x * x - x2) % P25519 != 0:
+        x = x * ED_I % P25519
+    if (x * x - x2) % P25519 != 0:
+        return None
+    if (x & 1) != sign:
+        x = P25519 - x
+    return x
+
+
+_gy = 4 * pow(5, P25519 - 2, P25519) % P25519
+_gx = _ed_recover_x(_gy, 0)
+ED_G = (_gx, _gy, 1, _gx * _gy % P25519)
+
+
+def ed_compress(P):
+    zinv = pow(P[2], P25519 - 2, P25519)
+    x, y = P[0] * zinv % P25519, P[1] * zinv % P25519
+    return int.to_bytes(y | ((x & 1) << 255), 32, "little")
+
+
+def ed_secret_expand(seed):
+    h = sha512(seed)
+    a = int.from_bytes(h[:32], "little")
+    a &= (1 << 254) - 8
+    a |= 1 << 254
+    return a, h[32:]
+
+
+def ed_public(seed):
+    a, _ = ed_secret_expand(seed)
+    return ed_compress(_ed_mul(a, ED_G))
+
+
+DOM2 = b"SigEd25519 no Ed25519 collisions\x01\x00"
+
+
+def ed_sign(seed, msg, ph=False):
+    a, prefix = ed_secret_expand(seed)
+    A = ed_compress(_ed_mul(a, ED_G))
+    dom = DOM2 if ph else b""
+    m = sha512(msg) if ph else msg
+    r = int.from_bytes(sha512(dom + prefix + m), "little") % ED_L
+    Rs = ed_compress(_ed_mul(r, ED_G))
+    h = int.from_bytes(sha512(dom + Rs + A + m), "little") % ED_L
+    s = (r + h * a) % ED_L
+    return Rs + int.to_bytes(s, 32, "little")
+
+
+ED_SMALL_ORDER = [
+    bytes(32), bytes([1]) + bytes(31),
+    bytes.fromhex("26e8958fc2b227b045c3f489f2ef98f0d5dfac05d3c63339b13802886d53fc05"),
+    bytes.fromhex("c7176a703d4dd84fba3c0b760d10670f2a2053fa2c39ccc64ec7fd7792ac037a"),
+    bytes([0xec]) + b"\xff" * 30 + b"\x7f", bytes([0xed]) + b"\xff" * 30 + b"\x7f", bytes([0xee]) + b"\xff" * 30 + b"\x7f",
+]
+
+X_LOW_ORDER = [
+    bytes(32), bytes([1]) + bytes(31),
+    bytes.fromhex("e0eb7a7c3b41b8ae1656e3faf19fc46ada098deb9c32b1fd866205165f49b800"),
+    bytes.fromhex("5f9c95bca3508c24b1d0b1559c83ef5b04445cc4581c8e86d8224eddd09f1157"),
+    bytes([0xec]) + b"\xff" * 30 + b"\x7f", bytes([0xed]) + b"\xff" * 30 + b"\x7f", bytes([0xee]) + b"\xff" * 30 + b"\x7f",
+]
